@@ -27,6 +27,10 @@ def run_config(ctx, exes, be, lvl, lines, tag):
         if v:
             genuine += 1
             key, what = v
+            if be == "bw" and lvl in (3, 5) and c == m and l.split()[0] in G.SQUARE_USERS:
+                # root cause shared by all these ops: gf65376_square / gf27500_square drop a carry (the model
+                # reproduces the code exactly, so agreement with the model identifies this defect)
+                key, what = "bw:square:lost-carry", "x86 squaring loses a carry at levels 3/5 (gf65376_square / gf27500_square): " + what
             ctx.violation(key, "%s [%s lvl%d] %s" % (what, be, lvl, l[:200]),
                           dict(backend=be, level=lvl, op_line=l, real_code_output=c, model_output=m,
                                how_to_replay="echo '%s' | <drv_gf compiled for %s lvl%d>   (./check C07 --replay <this file>)" % (l, be, lvl)))
